@@ -105,6 +105,7 @@ pub fn gen_writer_plan(rng: &mut Rng) -> WriterPlan {
     eintr_burst: 1 + rng.below(3) as u32,
     zero_at: if rng.chance(60) { Some(rng.below(20)) } else { None },
     transient: rng.chance(400),
+    vectored: rng.chance(300),
   }
 }
 
